@@ -175,6 +175,53 @@ pub struct Occ {
     pub judged: bool,
     /// innermost enclosing probe, if any
     pub probe: Option<usize>,
+    pub role: Role,
+}
+
+#[derive(Debug, Clone, Copy, PartialEq, Eq)]
+pub enum Role {
+    Decl,
+    ValueUse,
+    ClassRef,
+    MulticlassRef,
+    FieldAccess,
+    LetTarget,
+}
+
+/// A position whose value must have a declared type (field initialiser, body let, template argument).
+#[derive(Debug, Clone)]
+pub struct Slot {
+    pub file: usize,
+    pub span: (usize, usize),
+    pub expected: Ty,
+    pub what: &'static str,
+}
+
+/// A class reference with its argument list, for arity faults.
+#[derive(Debug, Clone)]
+pub struct ArgList {
+    pub file: usize,
+    pub name_range: (usize, usize),
+    /// span of the last positional argument including the separator before it (or the whole `<..>` if it is the only one)
+    pub last_arg: Option<(usize, usize)>,
+    /// where a further argument can be inserted (just before `>`), or after the name when there is no list
+    pub insert_at: usize,
+    pub has_list: bool,
+    pub positional: usize,
+    pub named: usize,
+    pub params: usize,
+    pub required: usize,
+}
+
+#[derive(Debug, Clone)]
+pub struct BangCall {
+    pub file: usize,
+    pub op: String,
+    pub nargs: usize,
+    pub span: (usize, usize),
+    /// span of the last argument including the separator before it
+    pub last_arg: Option<(usize, usize)>,
+    pub close: usize,
 }
 
 #[derive(Debug, Clone)]
@@ -201,6 +248,13 @@ pub struct Emitted {
     pub files: Vec<FileOut>,
     pub decls: Vec<Decl>,
     pub occs: Vec<Occ>,
+    pub slots: Vec<Slot>,
+    pub arg_lists: Vec<ArgList>,
+    pub bang_calls: Vec<BangCall>,
+    /// (file, span of the path inside the quotes)
+    pub includes: Vec<(usize, (usize, usize))>,
+    /// (file, offset) of every statement-terminating `;`
+    pub semis: Vec<(usize, usize)>,
 }
 
 // ---------------------------------------------------------------------------
@@ -242,6 +296,7 @@ pub struct Emitter<'p> {
     /// records declared inside a multiclass body are prototypes: not global values
     in_multiclass: usize,
     cur_probe: Option<usize>,
+    targ_has_default: Vec<DeclId>,
 }
 
 pub fn emit(prog: &Program) -> Emitted {
@@ -261,6 +316,7 @@ pub fn emit(prog: &Program) -> Emitted {
         sym_stack: vec![vec![]],
         in_multiclass: 0,
         cur_probe: None,
+        targ_has_default: Vec::new(),
     };
     e.file_items(0);
     // files that are never included are still printed (they exist on disk) but have no semantics
@@ -290,6 +346,12 @@ impl<'p> Emitter<'p> {
 
     fn pos(&self) -> usize {
         self.out.files[self.file].text.len()
+    }
+
+    fn semi(&mut self) {
+        let at = self.pos();
+        self.out.semis.push((self.file, at));
+        self.w(";");
     }
 
     fn nl(&mut self) {
@@ -322,18 +384,22 @@ impl<'p> Emitter<'p> {
         self.w(name);
         let id = self.out.decls.len();
         self.out.decls.push(Decl { kind, name: name.into(), file: self.file, range: (s, s + name.len()), ty, doc: doc.to_vec(), owner, uses: vec![] });
-        self.out.occs.push(Occ { file: self.file, range: (s, s + name.len()), name: name.into(), target: Some(id), is_decl: true, judged: true, probe: self.cur_probe });
+        self.out.occs.push(Occ { file: self.file, range: (s, s + name.len()), name: name.into(), target: Some(id), is_decl: true, judged: true, probe: self.cur_probe, role: Role::Decl });
         id
     }
 
     fn use_of(&mut self, name: &str, target: Option<DeclId>, judged: bool) {
+        self.use_as(name, target, judged, Role::ValueUse)
+    }
+
+    fn use_as(&mut self, name: &str, target: Option<DeclId>, judged: bool, role: Role) {
         let s = self.pos();
         self.w(name);
         let r = (s, s + name.len());
         if let (Some(t), true) = (target, judged) {
             self.out.decls[t].uses.push((self.file, r));
         }
-        self.out.occs.push(Occ { file: self.file, range: r, name: name.into(), target, is_decl: false, judged, probe: self.cur_probe });
+        self.out.occs.push(Occ { file: self.file, range: r, name: name.into(), target, is_decl: false, judged, probe: self.cur_probe, role });
     }
 
     fn find_field(&self, rec: usize, name: &str) -> Option<(DeclId, Ty)> {
@@ -466,7 +532,7 @@ impl<'p> Emitter<'p> {
             }
             Ty::Class(c) => {
                 let target = self.classes.get(c).and_then(|r| self.class_decl.get(r)).copied();
-                self.use_of(c, target, true);
+                self.use_as(c, target, true, Role::ClassRef);
             }
             other => {
                 let s = other.show();
@@ -475,33 +541,62 @@ impl<'p> Emitter<'p> {
         }
     }
 
-    fn class_args(&mut self, class: &str, args: &[E], named: &[(String, E)]) {
+    fn record_arg_list(&mut self, class: &str, name_range: (usize, usize), last_arg: Option<(usize, usize)>, insert_at: usize, has_list: bool, positional: usize, named: usize) {
+        let (params, required) = match self.classes.get(class) {
+            Some(r) => {
+                let t = &self.recs[*r].targs;
+                (t.len(), t.iter().filter(|(_, d)| !self.targ_has_default.contains(d)).count())
+            }
+            None => (0, 0),
+        };
+        self.out.arg_lists.push(ArgList { file: self.file, name_range, last_arg, insert_at, has_list, positional, named, params, required });
+    }
+
+    fn class_args(&mut self, class: &str, name_range: (usize, usize), args: &[E], named: &[(String, E)]) {
         if args.is_empty() && named.is_empty() {
+            let at = self.pos();
+            self.record_arg_list(class, name_range, None, at, false, 0, 0);
             return;
         }
-        let params: Vec<String> = self.classes.get(class).map(|r| self.recs[*r].targs.iter().map(|(n, _)| n.clone()).collect()).unwrap_or_default();
+        let params: Vec<(String, Ty)> = self
+            .classes
+            .get(class)
+            .map(|r| self.recs[*r].targs.iter().map(|(n, d)| (n.clone(), self.out.decls[*d].ty.clone().unwrap_or(Ty::Int))).collect())
+            .unwrap_or_default();
+        let open = self.pos();
         self.w("<");
         let mut first = true;
+        let mut last_arg = None;
         for (i, a) in args.iter().enumerate() {
+            let sep_start = self.pos();
             if !first {
                 self.w(", ");
             }
             first = false;
-            if let Some(p) = params.get(i) {
+            if let Some((p, _)) = params.get(i) {
                 let at = self.pos();
                 self.out.files[self.file].hints.push((at, format!("{p}:")));
             }
+            let s0 = self.pos();
             self.expr(a);
+            let e0 = self.pos();
+            if let Some((_, t)) = params.get(i) {
+                self.out.slots.push(Slot { file: self.file, span: (s0, e0), expected: t.clone(), what: "template argument" });
+            }
+            last_arg = Some((sep_start, e0));
         }
         for (n, a) in named {
             if !first {
                 self.w(", ");
             }
             first = false;
-            self.w(&format!("\"{n}\" = "));
+            self.w(&format!("{n} = "));
             self.expr(a);
         }
+        let close = self.pos();
         self.w(">");
+        let _ = open;
+        self.record_arg_list(class, name_range, if named.is_empty() { last_arg } else { None }, close, true, args.len(), named.len());
     }
 
     fn mc_args(&mut self, args: &[E]) {
@@ -542,11 +637,14 @@ impl<'p> Emitter<'p> {
             }
             E::ClassVal(c, args, named) => {
                 let target = self.classes.get(c).and_then(|r| self.class_decl.get(r)).copied();
-                self.use_of(c, target, true);
+                let name_start = self.pos();
+                self.use_as(c, target, true, Role::ClassRef);
                 if args.is_empty() && named.is_empty() {
+                    let at = self.pos();
                     self.w("<>");
+                    self.record_arg_list(c, (name_start, at), None, at + 1, true, 0, 0);
                 } else {
-                    self.class_args(c, args, named);
+                    self.class_args(c, (name_start, self.pos()), args, named);
                 }
             }
             E::Field(base, f) => {
@@ -557,7 +655,7 @@ impl<'p> Emitter<'p> {
                 let target = found.as_ref().map(|(d, _, _)| *d);
                 // only judged when the reference can type the base, finds the field, and no override lies on the path
                 let clean = found.as_ref().map(|(_, _, c)| *c).unwrap_or(false);
-                self.use_of(f, target, rec.is_some() && clean);
+                self.use_as(f, target, rec.is_some() && clean, Role::FieldAccess);
             }
             E::List(xs) => {
                 self.w("[");
@@ -597,6 +695,7 @@ impl<'p> Emitter<'p> {
                 self.expr(b);
             }
             E::Bang(op, ty, args) => {
+                let start = self.pos();
                 self.w(op);
                 if let Some(t) = ty {
                     self.w("<");
@@ -604,13 +703,18 @@ impl<'p> Emitter<'p> {
                     self.w(">");
                 }
                 self.w("(");
+                let mut last_arg = None;
                 for (i, a) in args.iter().enumerate() {
+                    let sep = self.pos();
                     if i > 0 {
                         self.w(", ");
                     }
                     self.expr(a);
+                    last_arg = Some((sep, self.pos()));
                 }
+                let close = self.pos();
                 self.w(")");
+                self.out.bang_calls.push(BangCall { file: self.file, op: op.clone(), nargs: args.len(), span: (start, close + 1), last_arg, close });
             }
             E::BForeach(v, list, body) | E::BFilter(v, list, body) => {
                 self.w(if matches!(e, E::BForeach(..)) { "!foreach(" } else { "!filter(" });
@@ -623,7 +727,7 @@ impl<'p> Emitter<'p> {
                 // declare after printing the list: record the declaration at its printed position
                 let id = self.out.decls.len();
                 self.out.decls.push(Decl { kind: DeclKind::BangVar, name: v.clone(), file: self.file, range: (at, at + v.len()), ty: None, doc: vec![], owner: None, uses: vec![] });
-                self.out.occs.push(Occ { file: self.file, range: (at, at + v.len()), name: v.clone(), target: Some(id), is_decl: true, judged: true, probe: self.cur_probe });
+                self.out.occs.push(Occ { file: self.file, range: (at, at + v.len()), name: v.clone(), target: Some(id), is_decl: true, judged: true, probe: self.cur_probe, role: Role::Decl });
                 self.scopes.push(Scope::Block { vars: vec![(v.clone(), id)] });
                 self.expr(body);
                 self.scopes.pop();
@@ -720,8 +824,12 @@ impl<'p> Emitter<'p> {
             }
             out.push((t.name.clone(), d, Sym { kind: "template-arg", name: t.name.clone(), range, children: vec![] }));
             if let Some(v) = &t.default {
+                self.targ_has_default.push(d);
                 self.w(" = ");
+                let s0 = self.pos();
                 self.expr(v);
+                let e0 = self.pos();
+                self.out.slots.push(Slot { file: self.file, span: (s0, e0), expected: t.ty.clone(), what: "template argument default" });
             }
         }
         self.w(">");
@@ -733,8 +841,10 @@ impl<'p> Emitter<'p> {
             self.w(if i == 0 { " : " } else { ", " });
             let cls = self.classes.get(&p.name).copied();
             let target = cls.and_then(|r| self.class_decl.get(&r)).copied();
-            self.use_of(&p.name, target, true);
-            self.class_args(&p.name, &p.args, &p.named);
+            let ns = self.pos();
+            self.use_as(&p.name, target, true, Role::ClassRef);
+            let ne = self.pos();
+            self.class_args(&p.name, (ns, ne), &p.args, &p.named);
             if let Some(c) = cls {
                 if c != rec {
                     self.recs[rec].parents.push(c);
@@ -745,7 +855,7 @@ impl<'p> Emitter<'p> {
 
     fn body(&mut self, body: &Option<Vec<BI>>, rec: usize, children: &mut Vec<Sym>) {
         let Some(items) = body else {
-            self.w(";");
+            self.semi();
             return;
         };
         self.w(" {");
@@ -764,16 +874,20 @@ impl<'p> Emitter<'p> {
                     children.push(Sym { kind: "field", name: name.clone(), range, children: vec![] });
                     if let Some(v) = init {
                         self.w(" = ");
+                        let s0 = self.pos();
                         self.expr(v);
+                        let e0 = self.pos();
+                        self.out.slots.push(Slot { file: self.file, span: (s0, e0), expected: ty.clone(), what: "field initialiser" });
                     }
-                    self.w(";");
+                    self.semi();
                 }
                 BI::Let { name, value } => {
                     self.w("let ");
                     let found = self.find_field(rec, name);
                     let s = self.pos();
                     // an undeclared let target is not in the property's list: recorded, not judged
-                    self.use_of(name, found.as_ref().map(|(d, _)| *d), found.is_some());
+                    self.use_as(name, found.as_ref().map(|(d, _)| *d), found.is_some(), Role::LetTarget);
+                    let let_ty = found.as_ref().map(|(_, t)| t.clone());
                     if found.is_some() {
                         self.recs[rec].overridden.push(name.clone());
                     }
@@ -788,8 +902,13 @@ impl<'p> Emitter<'p> {
                         let _ = orig;
                     }
                     self.w(" = ");
+                    let s0 = self.pos();
                     self.expr(value);
-                    self.w(";");
+                    let e0 = self.pos();
+                    if let Some(t) = let_ty {
+                        self.out.slots.push(Slot { file: self.file, span: (s0, e0), expected: t, what: "field override" });
+                    }
+                    self.semi();
                 }
                 BI::Defvar { name, value } => {
                     self.w("defvar ");
@@ -797,11 +916,11 @@ impl<'p> Emitter<'p> {
                     self.w(name);
                     self.w(" = ");
                     self.expr(value);
-                    self.w(";");
+                    self.semi();
                     // the variable is visible after its own initialiser
                     let id = self.out.decls.len();
                     self.out.decls.push(Decl { kind: DeclKind::Defvar, name: name.clone(), file: self.file, range: (at, at + name.len()), ty: None, doc: vec![], owner: None, uses: vec![] });
-                    self.out.occs.push(Occ { file: self.file, range: (at, at + name.len()), name: name.clone(), target: Some(id), is_decl: true, judged: true, probe: self.cur_probe });
+                    self.out.occs.push(Occ { file: self.file, range: (at, at + name.len()), name: name.clone(), target: Some(id), is_decl: true, judged: true, probe: self.cur_probe, role: Role::Decl });
                     self.add_var(name, id);
                 }
                 BI::Assert { cond, msg } => {
@@ -809,12 +928,12 @@ impl<'p> Emitter<'p> {
                     self.expr(cond);
                     self.w(", ");
                     self.expr(msg);
-                    self.w(";");
+                    self.semi();
                 }
                 BI::Dump(e) => {
                     self.w("dump ");
                     self.expr(e);
-                    self.w(";");
+                    self.semi();
                 }
             }
         }
@@ -850,7 +969,12 @@ impl<'p> Emitter<'p> {
         match it {
             Item::Raw(s) => self.w(s),
             Item::Include(name) => {
-                self.w(&format!("include \"{name}\""));
+                self.w("include \"");
+                let s0 = self.pos();
+                self.w(name);
+                let e0 = self.pos();
+                self.out.includes.push((self.file, (s0, e0)));
+                self.w("\"");
                 if let Some(idx) = self.prog.files.iter().position(|(n, _)| n == name) {
                     if !self.included.contains(name) {
                         self.included.push(name.clone());
@@ -908,10 +1032,10 @@ impl<'p> Emitter<'p> {
                 self.w(name);
                 self.w(" = ");
                 self.expr(value);
-                self.w(";");
+                self.semi();
                 let id = self.out.decls.len();
                 self.out.decls.push(Decl { kind: DeclKind::Defvar, name: name.clone(), file: self.file, range: (at, at + name.len()), ty: None, doc: vec![], owner: None, uses: vec![] });
-                self.out.occs.push(Occ { file: self.file, range: (at, at + name.len()), name: name.clone(), target: Some(id), is_decl: true, judged: true, probe: self.cur_probe });
+                self.out.occs.push(Occ { file: self.file, range: (at, at + name.len()), name: name.clone(), target: Some(id), is_decl: true, judged: true, probe: self.cur_probe, role: Role::Decl });
                 self.add_var(name, id);
             }
             Item::Foreach { var, list, body, braces } => {
@@ -924,7 +1048,7 @@ impl<'p> Emitter<'p> {
                 self.w(" in ");
                 let id = self.out.decls.len();
                 self.out.decls.push(Decl { kind: DeclKind::ForeachVar, name: var.clone(), file: self.file, range: (at, at + var.len()), ty: None, doc: vec![], owner: None, uses: vec![] });
-                self.out.occs.push(Occ { file: self.file, range: (at, at + var.len()), name: var.clone(), target: Some(id), is_decl: true, judged: true, probe: self.cur_probe });
+                self.out.occs.push(Occ { file: self.file, range: (at, at + var.len()), name: var.clone(), target: Some(id), is_decl: true, judged: true, probe: self.cur_probe, role: Role::Decl });
                 self.scopes.push(Scope::Block { vars: vec![(var.clone(), id)] });
                 self.block(body, *braces);
                 self.scopes.pop();
@@ -996,7 +1120,7 @@ impl<'p> Emitter<'p> {
                 for (i, p) in parents.iter().enumerate() {
                     self.w(if i == 0 { " : " } else { ", " });
                     let target = self.multiclasses.get(&p.name).copied().filter(|t| *t != d);
-                    self.use_of(&p.name, target.or(Some(d).filter(|_| p.name == *name)), true);
+                    self.use_as(&p.name, target.or(Some(d).filter(|_| p.name == *name)), true, Role::MulticlassRef);
                     self.mc_args(&p.args);
                 }
                 self.w(" ");
@@ -1018,22 +1142,22 @@ impl<'p> Emitter<'p> {
                 for (i, p) in parents.iter().enumerate() {
                     self.w(if i == 0 { " : " } else { ", " });
                     let target = self.multiclasses.get(&p.name).copied();
-                    self.use_of(&p.name, target, true);
+                    self.use_as(&p.name, target, true, Role::MulticlassRef);
                     self.mc_args(&p.args);
                 }
-                self.w(";");
+                self.semi();
             }
             Item::Assert { cond, msg } => {
                 self.w("assert ");
                 self.expr(cond);
                 self.w(", ");
                 self.expr(msg);
-                self.w(";");
+                self.semi();
             }
             Item::Dump(e) => {
                 self.w("dump ");
                 self.expr(e);
-                self.w(";");
+                self.semi();
             }
         }
     }
